@@ -32,6 +32,7 @@ TRUSTED = ["(R) not verified, compared with the verified reference sp_decide on 
            "exercised through it"]
 ASSUMPTIONS = ["data_type = soc, every order ranks every alternative exactly once, >= 1 order, orders distinct "
                "(quantifier of C03)"]
+COVER_FILES = ['properties/subdomains/ordinal/singlepeaked/singlepeakedness.py']
 TIMEOUT_S = 30.0
 CHUNK = 40
 THEOREMS_FOR_OP = {"c03.sp": "sp_decide_correct / sp_check_axis_correct / sp_restrict"}
@@ -223,7 +224,7 @@ def generate(tier, seed):
         add(rand_perm(rng, ids), votes, s34=1)
 
     # ---- random small (reference runs), arbitrary ids
-    nrand = 1200 if not thorough else 12000
+    nrand = 1200 if not thorough else 30000
     mmax = 7 if not thorough else 8
     for i in range(nrand):
         m = rng.randint(3, mmax)
